@@ -8,7 +8,7 @@ import common
 
 KINDS = {
     'C08': ['lossless'], 'C11': ['quant'], 'C15': ['msgs'], 'C02': ['msgs', 'scan', 'iter', 'new'], 'C09': ['msgs'], 'C01': ['msgs', 'lossless'],
-    'C16': ['bias', 'msgs'], 'C10': ['msmperm', 'msgs'], 'C07': ['bits'], 'C12': ['builder'], 'C17': ['text'], 'C14': ['classify', 'new'],
+    'C16': ['bias', 'msgs'], 'C10': ['msminvalid', 'msmperm', 'msgs'], 'C07': ['bits'], 'C12': ['builder'], 'C17': ['text'], 'C14': ['classify', 'new'],
     'C03': ['new'], 'C13': ['new'], 'C04': ['corrupt', 'new', 'scan'], 'C05': ['scan', 'iter', 'new'], 'C06': ['chunks', 'scan', 'new'],
 }
 _bin = None
